@@ -421,16 +421,25 @@ func (c *Conn) setReadRemaining(n int64) error {
 // Close closes the underlying network connection without sending or waiting
 // for a close message.
 func (c *Conn) CloseWithError(code webtransport.SessionErrorCode, msg string) error {
+	if s := verifSession(c); s != nil {
+		return s.CloseWithError(code, msg)
+	}
 	return c.session.CloseWithError(code, msg)
 }
 
 // LocalAddr returns the local network address.
 func (c *Conn) LocalAddr() net.Addr {
+	if s := verifSession(c); s != nil {
+		return s.LocalAddr()
+	}
 	return c.session.LocalAddr()
 }
 
 // RemoteAddr returns the remote network address.
 func (c *Conn) RemoteAddr() net.Addr {
+	if s := verifSession(c); s != nil {
+		return s.RemoteAddr()
+	}
 	return c.session.RemoteAddr()
 }
 
